@@ -191,8 +191,14 @@ def same(a, b, with_vals=True, zero_sign=True):
 
 
 def kernel_shard(task):
-    tier, seed, shard, n_cases, sanitize, cc = task
-    cases = generate_cases(kernel_cases(tier), n_cases, seed * 7001 + shard)
+    tier, seed, shard, n_cases, sanitize, cc = task[:6]
+    strategy = kernel_cases
+    if len(task) > 6:  # another property's generator (C05 runs its own shapes through the native stage)
+        import importlib
+
+        modname, fname = task[6].split(":")
+        strategy = getattr(importlib.import_module(modname), fname)
+    cases = generate_cases(strategy(tier), n_cases, seed * 7001 + shard)
     stats = Stats()
     # the LLVM module is generated in another process (as evaluate's is, relative to the CLI's C) under another hash
     # seed: a kernel whose loop or summation order depends on set iteration order shows up as a three-way split
